@@ -12,6 +12,10 @@ tie   : stream valid-grid — valid and invalid grid geometries (templates of ev
         The harness also runs the property's invariance oracle directly on GEOS (3 random exact transformations per case).
         stream node-topo — the real PolygonNodeTopology::compareAngle / isCrossing / isInteriorSegment on integer node
         configurations against the Lean copy the theorems are about.
+        stream ring-nested — the real PolygonTopologyAnalyzer::isRingNested on pairs of integer rings (comb / arch / bay
+        shapes touching in 1..n points of one edge, random start vertex and direction, repeated points, random contact
+        rings) against the Lean copy (Model/Valid/RingNested.lean) and, when the rings do not cross, the exact containment
+        reference.
 A difference in a verdict IS a violation of C05 (GEOS != the rules).  Known defects are matched by structural signatures."""
 import os, json, glob
 import verif, gtok
@@ -110,6 +114,19 @@ def safe_wkt(geom):
         return "?"
 
 
+def nest_wkts(case):
+    """geometries built from a ring-nested case 'R x y ... | x y ...' whose validity hinges on the nesting decision"""
+    try:
+        a, b = case[1:].split("|")
+        def ring(t):
+            v = t.split()
+            return "(" + ",".join("%s %s" % (v[i], v[i + 1]) for i in range(0, len(v), 2)) + ")"
+        ta, tb = ring(a), ring(b)
+        return ["MULTIPOLYGON((%s),(%s))" % (tb, ta), "MULTIPOLYGON((%s),(%s))" % (ta, tb), "POLYGON(%s,%s)" % (tb, ta)]
+    except Exception:
+        return []
+
+
 def run(ctx):
     ctx.base_trust([
         "the reference evaluator GeosModel.Valid.validRef / simpleRef (literal OGC/JTS rules on exact integer geometry, Model/Valid/Ref.lean) "
@@ -130,7 +147,7 @@ def run(ctx):
         ctx.violation("harness c05 does not compile against the current tree", {"kind": "tie-broken", "correspondence": "harness/c05.cpp", "log": out[-3000:]}, nofail=True)
         return
     quick = ctx.tier == "quick"
-    n = 6000 if quick else 400000
+    n = 10000 if quick else 400000
     found_input = False
     r = verif.run_stream(exe, STREAM, ctx.seed, n, ctx.work, shards=8, driver_exe=DRV, timeout=6000)
     fam = {}
@@ -197,6 +214,36 @@ def run(ctx):
                       {"kind": "tie-broken", "correspondence": "node-topo", "case": case, "impl": exp, "model": got,
                        "fields": "compareAngle(o,a0,a1) compareAngle(o,b0,a0) isCrossing isInteriorSegment(b0) isInteriorSegment(b1); case = N o a0 a1 b0 b1"},
                       nofail=not found_input)
+    # ---- the model of PolygonTopologyAnalyzer::isRingNested against the real function (the one decision behind hole-in-shell,
+    #      nested holes, nested shells and shell-in-hole) and, for rings that do not cross, against the exact containment reference
+    r3 = verif.run_stream(exe, "ring-nested", ctx.seed, 80000 if quick else 1500000, ctx.work, shards=8, driver_exe=DRV)
+    corr["ring-nested"] = {"cases": r3["cases"], "disagreements": len(r3["disagreements"]) + r3.get("more_disagreements", 0), "distribution": r3["stats"]}
+    if r3["error"]:
+        ctx.violation("stream ring-nested could not run: " + r3["error"], {"kind": "tie-broken", "correspondence": "ring-nested", "detail": r3["error"]}, nofail=True)
+    elif r3["disagreements"]:
+        # try to turn the differing ring pair into a geometry on which the validity verdict itself is wrong
+        failing = None
+        for idx, case, exp, got in r3["disagreements"][:40]:
+            for wkt in nest_wkts(case):
+                v, obs = evaluate(exe, "W " + wkt)
+                if v and v.startswith("bad"):
+                    failing = (case, exp, got, wkt, v, obs)
+                    break
+            if failing:
+                break
+        idx, case, exp, got = r3["disagreements"][0]
+        if failing:
+            case, exp, got, wkt, v, obs = failing
+            sig = signature(v)
+            found_input = True
+            ctx.violation("validity differs from the OGC rules on a pair of rings where isRingNested differs from its model / the containment reference: %s  [%s]" % (v, json.dumps(sig, sort_keys=True)),
+                          {"kind": "failing-input", "stream": "ring-nested", "wkt_list": [wkt], "wkt": wkt, "observed": obs.split(" | ")[-1] if obs else "", "verdict": v,
+                           "ring_pair": case, "isRingNested_impl": exp, "isRingNested_model": got, "signature": sig}, signature=sig)
+        else:
+            ctx.violation("PolygonTopologyAnalyzer::isRingNested differs from its Lean copy / the exact containment reference: case %s impl %s model %s" % (case, exp, got),
+                          {"kind": "tie-broken", "correspondence": "ring-nested", "case": case, "impl": exp, "model": got,
+                           "fields": "case = R <test ring> | <target ring> (integer x y pairs); answer 1 nested / 0 not / X exception; 'ref=' = containment reference when the rings do not cross"},
+                          nofail=not found_input)
     ctx.cov["support_correspondence"] = corr
     if not proved:
         lf = getattr(ctx, "lean_failure", None) or {}
